@@ -62,6 +62,17 @@ func pseudoObs(in *pseudoIn) (map[string]any, string, time.Time) {
 	return obs, pv, utc
 }
 
+// safePseudoObs: a panic in the code under test becomes part of the observation (the trace cannot match)
+func safePseudoObs(in *pseudoIn) (obs map[string]any, pv string) {
+	defer func() {
+		if r := recover(); r != nil {
+			obs = map[string]any{"panic": fmt.Sprint(r)}
+		}
+	}()
+	obs, pv, _ = pseudoObs(in)
+	return obs, pv
+}
+
 // nextRelease is computed by the specification; the harness only compares with what it is given.
 func (w *pseudoWorld) Check(c *core.Case) ([]core.Violation, bool) {
 	if c.K != "make" {
@@ -144,7 +155,7 @@ func (w *pseudoWorld) Record(rng *rand.Rand, n int, emit func(k string, in, obs 
 			i--
 			continue
 		}
-		obs, pv, _ := pseudoObs(&in)
+		obs, pv := safePseudoObs(&in)
 		next := ""
 		_ = next
 		obs["pvvalid"] = semver.IsValid(pv)
